@@ -39,6 +39,13 @@ CHECKS = {
             "index bookkeeping consistent with mask > 0.",
             "Other outputs compared to 1e-12 (not bitwise) because the tail scatter changes the sub-batch size; non-finite "
             "autograd Jacobians are left to C16.", "DESIGN.md 3/C07"),
+    "C08": ("generated wrapper programs (Composite/Inverse/Multiscale trees, with context) vs a reference interpreter over the "
+            "leaves; exhaustive multiscale routing grid decided by power-of-two tagging in exact integer arithmetic",
+            "Exploration, exhaustive over 1-4 stages x split_dim 1-3 x event shapes of 1-3 dims up to size 6: every output value "
+            "identifies its input coordinate and the stages it passed (stage k multiplies by 2^(2^k)), compared with a numpy model "
+            "of the docstring; generated nestings compared with hand-chained leaves in both directions; InverseTransform bitwise swap.",
+            "Reference interpreter and numpy routing model are written from the docstrings; exact arithmetic below 2^53.",
+            "DESIGN.md 3/C08"),
     "C09": ("Hypothesis-generated spline parameters/boxes/tail bounds evaluated on sorted grids of constructed knots, ulp "
             "neighbours, end-points and tail junction; order/range/end-point/continuity/identity-tail invariants",
             "Exploration: every spline family x 1-8 bins x generated boxes/tail bounds x parameter regimes (incl. exactly zero and "
